@@ -30,6 +30,7 @@ func runC01(c *Ctx) {
 		ruleReaderSource(c, p, "C01.source")
 		ruleReadFull(c, p, "C01.readfull")
 		ruleScratchAlias(c, p, "C01.scratch")
+		ruleEncoderPure(c, p, "C01.pure")
 	}
 	p := c.Prog(core.CfgDefault)
 	if p == nil {
@@ -38,6 +39,8 @@ func runC01(c *Ctx) {
 	ruleBlockShape(c, p)
 	ruleVectoredEquiv(c, p, "C01.vectored")
 	ruleExitGuards(c, p, "C01.guard")
+	ruleScale(c, p, "C01.scale")
+	ruleForwardUnconditional(c, p, "C01.forward-always")
 	ruleKeyWidth(c, p)
 	ruleDict(c, p, "C01.dict")
 	ruleRebuild(c, p, "C01.rebuild")
@@ -534,6 +537,8 @@ func widthFactor(fn *ssa.Function) (int64, bool) {
 			for _, pr := range g.Params {
 				if n := core.NamedOf(pr.Type()); n != nil && n.Obj() == rn.Obj() {
 					takes = true
+				} else if n == nil && types.Identical(pr.Type(), rn.Underlying()) {
+					takes = true // the byte-view helper takes the column as its plain slice type
 				}
 			}
 			if takes && g.Name() != fn.Name() && g.Name() != "EncodeColumn" && g.Name() != "DecodeColumn" && g.Name() != "WriteColumn" {
@@ -1014,4 +1019,64 @@ func ruleForwardAll(c *Ctx, p *core.Program, rule string) {
 		}
 	}
 	c.R.Floor(rule, cfg, n, 3)
+}
+
+// ruleForwardUnconditional (C01 / C16 / C02): a wrapper forwards the state prefix whenever its inner column has one.
+func ruleForwardUnconditional(c *Ctx, p *core.Program, rule string) {
+	c.R.Rule(rule, "the serialization-state prefix belongs to the column, not to its current contents: in EncodeState / DecodeState of every struct wrapper that holds another column behind an interface field (Array, Map, Nullable, Named, Auto ...), no exit is reachable without passing a forwarded EncodeState / DecodeState call except through the failed edge of the type assertion on the inner column - an extra early return (`inner.Rows() == 0`) drops the LowCardinality version word for a batch of all-empty arrays, which DecodeState and the server still expect")
+	cfg := p.Cfg.Name
+	n := 0
+	for _, ct := range columnTypes(p) {
+		if _, ok := ct.Underlying().(*types.Struct); !ok {
+			continue
+		}
+		for _, m := range []string{"EncodeState", "DecodeState"} {
+			fn := methodOf(p, ct, m)
+			if fn == nil || fn.Blocks == nil {
+				continue
+			}
+			fws := core.ForwardedInvokes(fn, m)
+			if len(fws) == 0 {
+				continue // leaf: has a state of its own
+			}
+			n++
+			key := "wrapper/" + ct.Obj().Name() + "/" + m
+			isFw := func(in ssa.Instruction) bool {
+				for _, fw := range fws {
+					if fw.At == in {
+						return true
+					}
+				}
+				return false
+			}
+			notAsserted := core.CondEdges(fn, false, func(cond ssa.Value) (bool, bool) {
+				ex, ok := cond.(*ssa.Extract)
+				if !ok || ex.Index != 1 {
+					return false, false
+				}
+				ta, ok := ex.Tuple.(*ssa.TypeAssert)
+				return true, ok && ta.CommaOk
+			})
+			// with several inner columns (Map: keys and values) each assertion guards its own forward: a path
+			// that skipped one forward through its failed assertion must still meet the others, so the search
+			// only stops at exits
+			w := core.ReachAvoiding(core.Entry(fn), func(x ssa.Instruction) bool {
+				ret, ok := x.(*ssa.Return)
+				if !ok || x.Block().Comment == "recover" {
+					return false
+				}
+				if _, hasErr := core.ReturnsError(fn.Signature); hasErr {
+					return defaultSuccess(fn, ret)
+				}
+				return true
+			}, isFw, core.WithoutEdges(notAsserted))
+			if len(w) > 0 {
+				c.R.Bad(rule, key, cfg, p.Pos(w[0].At.Pos()), ct.Obj().Name()+"."+m+" can return without forwarding to its inner column although the inner column has a state prefix: the prefix is dropped for some contents (e.g. no elements) while the other side of the stream still expects it", p.TrailString(w[0])...)
+			} else {
+				c.R.Ok(rule, key, cfg, p.Pos(fn.Pos()), "forwarded on every path on which the inner column is stateful")
+			}
+		}
+	}
+	c.R.Count("state-forwarding wrapper methods["+cfg+"]", n)
+	c.R.Floor(rule, cfg, n, 8)
 }
